@@ -239,8 +239,8 @@ CLAIMED["C20"] = {
             "direction's node of a known channel, strictly newer, with consistent fields; a node changes only by a newer "
             "self-signed announcement of a node that has a channel; rejection or an unchanged graph implies nothing is "
             "relayed; updates parked before their channel are fully re-validated on replay. Tie: the real "
-            "AuthenticatedGossiper with a real graph.Builder over a real graph DB (bbolt; sqlite on even seeds in "
-            "thorough) on really signed and corrupted messages, whole graph + verdicts + broadcast counts compared "
+            "AuthenticatedGossiper with a real graph.Builder over a real graph DB (bbolt AND sqlite in every run) on "
+            "really signed and corrupted messages, incl. seeded restarts on cold store caches and small cache sizes, whole graph + verdicts + broadcast counts compared "
             "after every step (vm_compute) with harness-recomputed btcec/chain oracle tables, plus an independent "
             "authenticity predicate on the implementation trace.",
     "note": "Signatures, digests, chain answers and the funding-script constructor are oracles; theorems are "
